@@ -187,8 +187,8 @@ func checkC16(c *Ctx, r *rep.Report) {
 }
 
 func checkC18(c *Ctx, r *rep.Report) {
-	r.Explanation = "A: bias constants are 2p/4p with every limb dominating a reduced limb, masks are the limb masks; U: the unrolled carry/borrow chains of Add/Sub/Neg/...Reduce and SwapConditional are uniform stage by stage; R: interval + bit-provenance abstract interpretation of the field package under the magnitudes that reach it (no lost carry, no overflow, no borrow, lossless narrowing); bit-origin: Expand ignores bit 255 and Contract/Expand are inverse bit permutations on reduced inputs — on both limb layouts."
-	r.NotDecided = "value exactness of Mul/Square and the canonicalisation argument of Contract (relational / algebraic; see DESIGN section 7)"
+	r.Explanation = "X: exact algebra — every leaf field operation (Add/Sub/Neg and their AfterBasic/Reduce forms, Mul, Square, one step of SquareTimes with induction over its magnitude class, Copy) satisfies the polynomial identity sum(out_i*2^w_i) = spec(a,b) mod 2^255-19 coefficient by coefficient, for every operand-magnitude class the group law produces, with dropped high parts tracked as carry variables; Recip and PowTwo252m3 are addition chains ending at p-2 and 2^252-3; A: bias constants are 2p/4p with every limb dominating a reduced limb, masks are the limb masks; U: the unrolled carry/borrow chains of Add/Sub/Neg/...Reduce and SwapConditional are uniform stage by stage; R: interval + bit-provenance abstract interpretation of the field package under the magnitudes that reach it (no lost carry, no overflow, no borrow, lossless narrowing); bit-origin: Expand ignores bit 255 and Contract/Expand are inverse bit permutations on reduced inputs — on both limb layouts."
+	r.NotDecided = "the canonicalisation argument of Contract (that its output is the unique representative below p for every input representation) is relational and not decided; Expand/Contract are decided as bit permutations on reduced inputs only"
 	c.Preload(c.Configs())
 	for _, cfg := range c.Configs() {
 		p, _ := c.mustLoad(r, cfg)
@@ -200,6 +200,7 @@ func checkC18(c *Ctx, r *rep.Report) {
 		ruleBitOrigin(r, p, "curve25519")
 		ruleSwap(r, p)
 		ruleMagnitudes(r, p, "curve25519")
+		ruleExponentChains(r, p)
 	}
 }
 
